@@ -6,9 +6,9 @@ cd "$(dirname "$0")"
 mkdir -p ../.cache
 stamp=$(cat ../coq/Base/*.v ../coq/Mem/*.v ../coq/Fetch/*.v ../coq/Disk/*.v ../coq/Hybrid/*.v ../coq/Extract/*.v *_driver.ml build.sh 2>/dev/null | sha1sum | cut -d' ' -f1)
 ok=1
-for fam in mem fetch fmt hyb blk lin; do [ -x ${fam}_driver ] || ok=0; done
+for fam in mem fetch fmt hyb blk lin col; do [ -x ${fam}_driver ] || ok=0; done
 if [ "$ok" = 1 ] && [ -f ../.cache/ocaml.stamp ] && [ "$(cat ../.cache/ocaml.stamp)" = "$stamp" ]; then exit 0; fi
-for fam in mem fetch fmt hyb blk lin; do
+for fam in mem fetch fmt hyb blk lin col; do
   X=$(echo ${fam:0:1} | tr a-z A-Z)${fam:1}X
   coqc -Q ../coq FV ../coq/Extract/$X.v > /dev/null
   # build beside the target and rename: a check that is running keeps its (old) binary
